@@ -490,6 +490,12 @@ func (h *c14Hist) quiesce() bool {
 	return false
 }
 
+func (h *c14Hist) setMaxLog(n int64) {
+	for p := 0; p < int(h.x.Idx.PartitionN); p++ {
+		h.x.Idx.PartitionAt(p).VerifSetMaxLogFileSize(n)
+	}
+}
+
 func (h *c14Hist) apply(op c14Op, pool map[string]gixSeries) {
 	h.ops = append(h.ops, op)
 	switch op.Kind {
@@ -827,9 +833,8 @@ func (h *c14Hist) crashOp(op c14Op, pool map[string]gixSeries, step string) bool
 	}
 	// the op must not roll the log or compact by itself: raise the threshold for its duration
 	if op.Kind != "compact" {
-		for p := 0; p < int(h.x.Idx.PartitionN); p++ {
-			h.x.Idx.PartitionAt(p).VerifSetMaxLogFileSize(1 << 20)
-		}
+		h.setMaxLog(1 << 20)
+		h.x.HoldLog = true
 	}
 	h.apply(op, pool)
 	h.quiesce()
@@ -838,9 +843,8 @@ func (h *c14Hist) crashOp(op c14Op, pool map[string]gixSeries, step string) bool
 		h.t.Fatal(err)
 	}
 	if op.Kind != "compact" {
-		for p := 0; p < int(h.x.Idx.PartitionN); p++ {
-			h.x.Idx.PartitionAt(p).VerifSetMaxLogFileSize(h.cfg.MaxLog)
-		}
+		h.x.HoldLog = false
+		h.setMaxLog(h.cfg.MaxLog)
 	}
 	postLive := map[string]gixSeries{}
 	for k, v := range h.m.Live {
